@@ -135,3 +135,28 @@ var ProviderKinds = []ProviderKind{
 	{"PHR", true, false, func(b *Beh) any { c := &PHR{QCore: QCore{PCore{b}}}; b.Self = c; return c }},
 	{"PHQ", true, false, func(b *Beh) any { c := &PHQ{QCore: QCore{PCore{b}}}; b.Self = c; return c }},
 }
+
+// PN: several instances (distinguished only by custom names) wire each other by name.
+type PN struct {
+	QCore
+	Buddy IA  `wire:"n1,required=false"`
+	Pal   *PN `wire:"n2,required=false"`
+	Any   any `wire:"n3,required=false"`
+}
+
+func (*PN) isA() {}
+
+// PNR: like PN with a required by-name pointer to a sibling type instance.
+type PNR struct {
+	QCore
+	Pal *PNR `wire:"n2"`
+}
+
+func (*PNR) isA() {}
+
+func init() {
+	ProviderKinds = append(ProviderKinds,
+		ProviderKind{"PN", true, false, func(b *Beh) any { c := &PN{QCore: QCore{PCore{b}}}; b.Self = c; return c }},
+		ProviderKind{"PNR", true, false, func(b *Beh) any { c := &PNR{QCore: QCore{PCore{b}}}; b.Self = c; return c }},
+	)
+}
